@@ -56,6 +56,36 @@ Definition open_kind (k : log_kind) (file : bytes) : option (list bytes) :=
   | KFile => open_log FILE_EVENT_LOG_IDENTITY 6 file
   end.
 
+(* the reverse iteration (stream.rs next_back / read_row_next_back): the u32 before the position is
+   the row length; the row starts row_len + 8 bytes earlier; its time / previous commit / commit /
+   data length are read from row_start + 4.  The iteration ends when the position reaches the
+   header.  (The implementation subtracts without a check: a file too short for the length it
+   claims is an error here.) *)
+Definition p_row_tail : parser bytes :=
+  _ <- p_time ;; _ <- p_fixed 32 ;; c <- p_fixed 32 ;; _ <- p_u32 ;; ret c.
+Fixpoint scan_back (fuel : nat) (file : bytes) (hdr pos : N) (acc : list bytes) : option (list bytes) :=
+  match fuel with
+  | O => None
+  | S k =>
+    if pos =? hdr then Some (rev acc)
+    else if pos <? hdr + 4 then None
+    else match p_u32 (skipn (N.to_nat (pos - 4)) file) with
+         | None => None
+         | Some (n, _) =>
+           if pos <? hdr + n + 8 then None
+           else match p_row_tail (skipn (N.to_nat (pos - (n + 8) + 4)) file) with
+                | None => None
+                | Some (c, _) => scan_back k file hdr (pos - (n + 8)) (c :: acc)
+                end
+         end
+  end.
+(* iter(true): nothing to iterate when the file is no longer than the header *)
+Definition open_log_rev (hdr : N) (file : bytes) : option (list bytes) :=
+  if lenb file <=? hdr then Some [] else scan_back (S (length file)) file hdr (lenb file) [].
+
+Definition open_kind_rev (k : log_kind) (file : bytes) : option (list bytes) :=
+  match k with KFolder => open_log_rev 4 file | _ => open_log_rev 6 file end.
+
 Definition flat (rs : list record) : bytes := flat_map e_record rs.
 
 (* the records wholly contained in the first c bytes of flat ns; None when c falls inside one *)
